@@ -202,7 +202,7 @@ def run_property(P, tier, seed, replay=None):
     nontrivial = set()
     viol_cases = []
     for bname, exe in bins:
-        iobs = vlib.run_exe(exe, lines, timeout=P.impl_timeout)
+        iobs = P.run_impl(exe, lines) if hasattr(P, 'run_impl') else vlib.run_exe(exe, lines, timeout=P.impl_timeout)
         for c, m, i, so in zip(lines, mobs, iobs, sobs):
             st, detail = judge(P, c, m, i, known, so)
             stats[st] += 1
@@ -239,6 +239,8 @@ def run_property(P, tier, seed, replay=None):
             notes.append(info["text"])
         elif kind == "count":
             stats[info["name"]] = stats.get(info["name"], 0) + info["n"]
+            if info["name"].startswith("known:"):
+                known_hit.setdefault(info["name"][6:], ("", ""))
 
     # 7. verdict
     reported = 0
@@ -252,7 +254,7 @@ def run_property(P, tier, seed, replay=None):
         if c and not replay:
             def still(cand, exe=exe):
                 mo = vlib.run_exe(driver, [cand], timeout=60, unlimited_stack=True)[0]
-                io = vlib.run_exe(exe, [cand], timeout=60)[0]
+                io = (P.run_impl(exe, [cand]) if hasattr(P, 'run_impl') else vlib.run_exe(exe, [cand], timeout=60))[0]
                 sl = P.spec_line(cand)
                 so = vlib.run_exe(driver, [sl], timeout=60, unlimited_stack=True)[0] if sl else None
                 return judge(P, cand, mo, io, known, so)[0] == "violation"
@@ -262,7 +264,7 @@ def run_property(P, tier, seed, replay=None):
                 notes.append("shrink failed: %r" % ex)
         if small != c:
             m2 = vlib.run_exe(driver, [small], timeout=60, unlimited_stack=True)[0]
-            i2 = vlib.run_exe(exe, [small], timeout=60)[0]
+            i2 = (P.run_impl(exe, [small]) if hasattr(P, 'run_impl') else vlib.run_exe(exe, [small], timeout=60))[0]
         else:
             m2, i2 = m, i
         rp = vlib.write_replay(P.id, "%d" % reported, {
